@@ -32,7 +32,8 @@ def AsmDocOk (a : AsmDoc) (I : Url) : Prop :=
   (∀ x ∈ [a.authorizationEndpoint, a.tokenEndpoint, a.registrationEndpoint, a.introspectionEndpoint] ++ a.otherUrls,
       x.isScript = false ∧ ∀ n, x ≠ .bad n) ∧
   (∀ x ∈ [a.authorizationEndpoint, a.tokenEndpoint, a.registrationEndpoint, a.introspectionEndpoint],
-      x = .empty ∨ x.httpsOrLoopback = true)
+      x = .empty ∨ x.httpsOrLoopback = true) ∧
+  (Generated.OAuth.tokenEndpointRequired = true → a.tokenEndpoint ≠ .empty)
 
 /-- The metadata in use is a document fetched from a candidate location of `I` that passes the
 checks, or the fall-back after EVERY candidate location answered 4xx. -/
@@ -95,7 +96,12 @@ theorem asmUrlsOk_spec {d : AsmDoc} (h : asmUrlsOk d = true) :
     (∀ x ∈ [d.authorizationEndpoint, d.tokenEndpoint, d.registrationEndpoint, d.introspectionEndpoint],
       x = .empty ∨ x.httpsOrLoopback = true) := by
   simp only [asmUrlsOk, Bool.and_eq_true, List.all_eq_true] at h
-  exact ⟨fun x hx => checkScheme_spec (h.1 x hx), fun x hx => checkHOL_spec (h.2 x hx)⟩
+  exact ⟨fun x hx => checkScheme_spec (h.1.2 x hx), fun x hx => checkHOL_spec (h.2 x hx)⟩
+
+theorem asmUrlsOk_required {d : AsmDoc} (h : asmUrlsOk d = true) (hr : Generated.OAuth.tokenEndpointRequired = true) :
+    d.tokenEndpoint ≠ .empty := by
+  simp only [asmUrlsOk, Bool.and_eq_true, hr] at h
+  simpa using h.1.1.2
 
 theorem asm_justified (w : World) (I : Url) (h : ∀ o, (discoverAsm w I 0 (asmCandidates I)).1 ≠ .err o) :
     AsmJustifies w (discoverAsm w I 0 (asmCandidates I)).2 I (effAsm (discoverAsm w I 0 (asmCandidates I)).1 I) := by
@@ -108,7 +114,7 @@ theorem asm_justified (w : World) (I : Url) (h : ∀ o, (discoverAsm w I 0 (asmC
     left
     obtain ⟨m, hm, j, h1, h2, h3, h4, h5⟩ := discoverAsm_found hq
     obtain ⟨h6, h7⟩ := asmUrlsOk_spec h4
-    exact ⟨m, hm, j, by simpa [effAsm] using h1, h5, by simpa [effAsm] using ⟨h2, h3, h6, h7⟩⟩
+    exact ⟨m, hm, j, by simpa [effAsm] using h1, h5, by simpa [effAsm] using ⟨h2, h3, h6, h7, fun hr => asmUrlsOk_required h4 hr⟩⟩
 
 theorem PrmJustifies.mono {cfg : Config} {inp : Input} {w : World} {l l' : List Event} {I r : Url}
     (h : PrmJustifies cfg inp w l I r) (hs : ∀ e ∈ l, e ∈ l') : PrmJustifies cfg inp w l' I r := by
@@ -284,14 +290,14 @@ theorem requests_https_or_loopback_partial (cfg : Config) (inp : Input) (w : Wor
     · exact h
   · left
     obtain ⟨I, _, hj⟩ := F.asm a ha
-    rcases hj with ⟨m, _, i, _, _, _, _, _, h4⟩ | ⟨rfl, h⟩
+    rcases hj with ⟨m, _, i, _, _, _, _, _, h4, h5⟩ | ⟨rfl, h⟩
     · rcases h4 a.registrationEndpoint (by simp) with h | h
       · exact absurd h hne
       · exact h
     · exact fallback_endpoint_hol h hnb
   · simp [Event.isRequest] at hr
   · obtain ⟨I, _, hj⟩ := F.asm a ha
-    rcases hj with ⟨m, _, i, _, _, _, _, _, h4⟩ | ⟨rfl, h⟩
+    rcases hj with ⟨m, _, i, _, _, _, _, _, h4, h5⟩ | ⟨rfl, h⟩
     · rcases h4 a.tokenEndpoint (by simp) with h | h
       · right; exact ⟨cred, by rw [h]⟩
       · left; exact h
@@ -315,6 +321,28 @@ theorem requests_https_or_loopback_of_token_endpoints (cfg : Config) (inp : Inpu
       have ht : a.tokenEndpoint = .empty := by injection h with h1 _; exact h1.symm
       rcases hj with ⟨m, _, i, hd, _⟩ | ⟨rfl, _⟩
       · exact hw i m a hd ht
+      · exact absurd ht (derive_ne_empty _ _)
+
+/-- The FULL statement, for a tree in which `validateAuthServerMetaURLs` refuses metadata without a
+token endpoint (regenerated flag `tokenEndpointRequired`; it is `false` in the pinned tree, where
+this theorem is vacuous and the finding stands; it becomes the unconditional theorem once the
+candidate fix `proposed_findings/C15-empty-token-endpoint.candidate-fix.patch` is applied). -/
+theorem requests_https_or_loopback_if_endpoint_required (hreq : Generated.OAuth.tokenEndpointRequired = true)
+    (cfg : Config) (inp : Input) (w : World) (e : Event)
+    (he : e ∈ (authorize cfg inp w).log) (hr : e.isRequest = true) : e.url.httpsOrLoopback = true := by
+  rcases requests_https_or_loopback_partial cfg inp w e he hr with h | ⟨c, rfl⟩
+  · exact h
+  · exfalso
+    have F := authorize_facts cfg inp w
+    rcases F.mem _ he with ⟨_, _, h, _⟩ | ⟨_, _, _, _, h, _⟩ | ⟨_, _, h, _⟩ | ⟨_, _, _, h, _⟩ | ⟨a, cred, ha, h, _⟩
+    · cases h
+    · cases h
+    · cases h
+    · cases h
+    · obtain ⟨I, _, hj⟩ := F.asm a ha
+      have ht : a.tokenEndpoint = .empty := by injection h with h1 _; exact h1.symm
+      rcases hj with ⟨m, _, i, _, _, _, _, _, _, h5⟩ | ⟨rfl, _⟩
+      · exact h5 hreq ht
       · exact absurd ht (derive_ne_empty _ _)
 
 /-- **prm_used_only_if_resource_matches**: the authorization server the flow continues with (and the
@@ -520,9 +548,12 @@ example : (authorize wCfg wInp { wWorld wDoc with fetch := fun _ => .result true
 `token_endpoint` is accepted and the code exchange goes to the EMPTY URL (which is neither https nor
 loopback). The replay of this world on the real code is the known finding
 `C15-empty-token-endpoint`. -/
-theorem empty_token_endpoint_is_requested :
+theorem empty_token_endpoint_is_requested (h : Generated.OAuth.tokenEndpointRequired = false) :
     ∃ cfg inp w e, e ∈ (authorize cfg inp w).log ∧ e.isRequest = true ∧ e.url.httpsOrLoopback = false :=
-  ⟨wCfg, wInp, wWorld { wDoc with tokenEndpoint := .empty }, .token .empty .pre, by decide, by decide, by decide⟩
+  ⟨wCfg, wInp, wWorld { wDoc with tokenEndpoint := .empty }, .token .empty .pre,
+    (by decide : Generated.OAuth.tokenEndpointRequired = false →
+      Event.token .empty .pre ∈ (authorize wCfg wInp (wWorld { wDoc with tokenEndpoint := .empty })).log) h,
+    by decide, by decide⟩
 end Witness
 
 end OAuth
